@@ -424,6 +424,12 @@ def run_history(ctx, items, plan, mode, case):
             try:
                 if kind == "add":
                     conf.add_new_items(new, "batch%d" % bi)
+                elif kind == "component":
+                    # the defaults of a component that is no palette class (a plug-in's file, read into a dictionary
+                    # that is dropped right away), registered through the documented method
+                    _UNIQ[0] += 1
+                    conf.register_color_conf_component(nest(dict(new)), "component %d" % _UNIQ[0])
+                    ctx.count("components_registered_from_dictionaries_that_are_dropped")
                 elif kind == "palette-stable":
                     # the long-lived component palette comes to this configuration, here through its
                     # effect-free variant (which exists once per class, whatever the configuration)
@@ -565,7 +571,8 @@ def make_plan(rng, items, mode):
     while rest:
         m = rng.randint(1, len(rest))
         batch, rest = rest[:m], rest[m:]
-        kinds = ["add", "add", "palette", "palette-nested", "palette-child", "palette-compound", "palette-derived"] + (
+        kinds = ["add", "add", "palette", "palette-nested", "palette-child", "palette-compound", "palette-derived",
+                 "component", "component", "component"] + (
             ["palette-synced"] * 3 if mode == "global" else [])
         conflicts = rng.sample(sorted(items), min(2, len(items)))
         batches.append([rng.choice(kinds), batch, conflicts])
